@@ -358,8 +358,9 @@ func coalesceIntervals(intervals []ast.Interval) []ast.Interval {
 		curr := concrete[i]
 
 		// Check if current overlaps or is adjacent to last
-		// Adjacent means end of last + 1 nanosecond = start of current
-		if last.End.Timestamp >= curr.Start.Timestamp-1 {
+		// Adjacent means end of last + 1 nanosecond = start of current.
+		// (Written so that curr.Start-1 is only computed when it cannot wrap around.)
+		if curr.Start.Timestamp <= last.End.Timestamp || curr.Start.Timestamp-1 == last.End.Timestamp {
 			// Merge: extend the end if needed
 			if curr.End.Timestamp > last.End.Timestamp {
 				last.End = curr.End
